@@ -17,6 +17,8 @@ def main():
         os._exit(2)
     signal.signal(signal.SIGALRM, on_alarm)
     signal.alarm(limit)
+    import logging
+    logging.getLogger('pyhf').setLevel(logging.ERROR)
     mod = importlib.import_module(f'harness.props.{a.pid.lower()}')
     replay = json.load(open(a.replay)) if a.replay else None
     ctx = core.Ctx(a.pid, a.tier, seed, replay)
